@@ -4,7 +4,7 @@ tier=${1:-quick}
 cd "$(dirname "$0")/.."
 fail=0
 for n in 01 02 03 04 05 06 07 08 09 10 11 12 13 14 15 16 17 18 19 20; do
-  out=$(python3-vt -m kverif check C$n --tier $tier 2>&1 | grep -v "^WARNING")
+  out=$(KVERIF_STRICT_LIVENESS=1 python3-vt -m kverif check C$n --tier $tier 2>&1 | grep -v "^WARNING")
   code=$(echo "$out" | tail -1 | sed 's/.*exit=//')
   echo "$out" | tail -1
   if [ "$code" != "0" ]; then fail=1; echo "$out" | grep -v "^\[" | cut -c1-300 | head -8; fi
